@@ -4,7 +4,8 @@
 //! stdin : one JSON case per line  {"id":k,"threads":T,"collectors":K,"wraps":[w1..wK],"ops":[[t,code,a,b,c,d,e],...]}
 //!         collector k is installed as Dispatch::new(Rec) (w = 0), Box<Rec> (1), Arc<Rec> (2), Box<dyn Collect + Send + Sync>
 //!         (3) or Arc<dyn Collect + Send + Sync> (4); collectors 3.. hand out a fresh id per handle from clone_span and
-//!         do not track the current span
+//!         do not track the current span; "own_ids": true = every collector numbers its spans from 1 (the ids tracing sees
+//!         overlap between collectors); the log always shows the global sequence number of an id
 //! stdout: one JSON line per case  {"id":k,"rejected_at":-1|i,"ops":[{"e":[[c,t,tag,id,x,y],..],"res":r,"dr":d,"pre":p}],"fatal":null|".."}
 //!
 //! Design choices (see notes/C03.md):
@@ -41,6 +42,8 @@ struct Shared {
     log: Mutex<Vec<LogE>>,
     next_id: AtomicU64,
     recording: AtomicBool,
+    /// every collector hands tracing ids from its own counter (1, 2, ..); the log is written in global sequence numbers
+    own_ids: bool,
 }
 
 thread_local! {
@@ -63,11 +66,43 @@ struct Rec {
     shared: Arc<Shared>,
     stacks: Mutex<HashMap<u64, Vec<u64>>>,
     metas: Mutex<HashMap<u64, &'static Metadata<'static>>>,
+    local_next: AtomicU64,
+    l2g: Mutex<HashMap<u64, u64>>,
 }
 
 impl Rec {
+    fn new(name: u64, per_handle: bool, shared: Arc<Shared>) -> Rec {
+        Rec {
+            name,
+            per_handle,
+            shared,
+            stacks: Mutex::new(HashMap::new()),
+            metas: Mutex::new(HashMap::new()),
+            local_next: AtomicU64::new(1),
+            l2g: Mutex::new(HashMap::new()),
+        }
+    }
     fn call(&self, tag: u64, id: u64, x: u64, y: u64) {
         self.shared.push([self.name, TID.with(|t| t.get()), tag, id, x, y]);
+    }
+    /// the global sequence number of an id this collector handed out (the id itself when ids are shared)
+    fn g(&self, id: u64) -> u64 {
+        if self.shared.own_ids {
+            self.l2g.lock().unwrap().get(&id).copied().unwrap_or(id)
+        } else {
+            id
+        }
+    }
+    /// a fresh id: (what tracing gets, its global sequence number)
+    fn fresh(&self) -> (u64, u64) {
+        let global = self.shared.next_id.fetch_add(1, Ordering::SeqCst);
+        if self.shared.own_ids {
+            let local = self.local_next.fetch_add(1, Ordering::SeqCst);
+            self.l2g.lock().unwrap().insert(local, global);
+            (local, global)
+        } else {
+            (global, global)
+        }
     }
 }
 
@@ -79,43 +114,44 @@ impl Collect for Rec {
         ENABLED.with(|e| e.get())
     }
     fn new_span(&self, attrs: &Attributes<'_>) -> Id {
-        let id = self.shared.next_id.fetch_add(1, Ordering::SeqCst);
+        let (id, global) = self.fresh();
         let (x, y) = if attrs.is_root() {
             (0, 0)
         } else if attrs.is_contextual() {
             (1, 0)
         } else {
-            (2, attrs.parent().map(|p| p.into_u64()).unwrap_or(0))
+            // with own ids the parent may be an id of another collector: it cannot be named globally (the driver masks it)
+            (2, if self.shared.own_ids { 0 } else { attrs.parent().map(|p| p.into_u64()).unwrap_or(0) })
         };
         self.metas.lock().unwrap().insert(id, attrs.metadata());
-        self.call(1, id, x, y);
+        self.call(1, global, x, y);
         Id::from_u64(id)
     }
     fn clone_span(&self, id: &Id) -> Id {
         if self.per_handle {
-            let new = self.shared.next_id.fetch_add(1, Ordering::SeqCst);
+            let (new, global) = self.fresh();
             let meta = self.metas.lock().unwrap().get(&id.into_u64()).copied();
             if let Some(m) = meta {
                 self.metas.lock().unwrap().insert(new, m);
             }
-            self.call(2, id.into_u64(), new, 0);
+            self.call(2, self.g(id.into_u64()), global, 0);
             Id::from_u64(new)
         } else {
-            self.call(2, id.into_u64(), id.into_u64(), 0);
+            self.call(2, self.g(id.into_u64()), self.g(id.into_u64()), 0);
             id.clone()
         }
     }
     fn try_close(&self, id: Id) -> bool {
-        self.call(3, id.into_u64(), 0, 0);
+        self.call(3, self.g(id.into_u64()), 0, 0);
         false
     }
     fn enter(&self, id: &Id) {
-        self.call(4, id.into_u64(), 0, 0);
+        self.call(4, self.g(id.into_u64()), 0, 0);
         let t = TID.with(|t| t.get());
         self.stacks.lock().unwrap().entry(t).or_default().push(id.into_u64());
     }
     fn exit(&self, id: &Id) {
-        self.call(5, id.into_u64(), 0, 0);
+        self.call(5, self.g(id.into_u64()), 0, 0);
         let t = TID.with(|t| t.get());
         let mut st = self.stacks.lock().unwrap();
         let v = st.entry(t).or_default();
@@ -124,10 +160,10 @@ impl Collect for Rec {
         }
     }
     fn record(&self, id: &Id, _: &Record<'_>) {
-        self.call(6, id.into_u64(), 0, 0);
+        self.call(6, self.g(id.into_u64()), 0, 0);
     }
     fn record_follows_from(&self, id: &Id, from: &Id) {
-        self.call(7, id.into_u64(), from.into_u64(), 0);
+        self.call(7, self.g(id.into_u64()), if self.shared.own_ids { 0 } else { from.into_u64() }, 0);
     }
     fn event(&self, _: &tracing::Event<'_>) {}
     fn current_span(&self) -> Current {
@@ -419,7 +455,7 @@ impl Fut for FW<FI<Inner>> {
 
 enum Holder {
     Handle(Box<Span>),
-    Owned(*const Span), // the EnteredSpan itself lives in its thread's arena (it is !Send)
+    Owned(*const Span, *const EnteredSpan), // the EnteredSpan itself lives in its thread's arena (it is !Send)
     Fut(Box<dyn Fut>),
     Polling, // taken out of the table by the running poll
 }
@@ -440,7 +476,7 @@ impl Case {
         let t = self.tables.lock().unwrap();
         match t.holders.get(&r).expect("validated: live") {
             Holder::Handle(b) => &**b as *const Span,
-            Holder::Owned(p) => *p,
+            Holder::Owned(p, _) => *p,
             Holder::Fut(f) => f.span() as *const Span,
             Holder::Polling => panic!("validated: not polling"),
         }
@@ -519,8 +555,13 @@ fn mk_child_id(p: &Span) -> Span {
     tracing::span!(parent: p.id(), Level::INFO, "child", f = tracing::field::Empty)
 }
 
+/// Span::id() + 1 (0 = none), as a global sequence number when the collectors number their spans themselves
 fn idp(s: &Span) -> u64 {
-    s.id().map(|i| i.into_u64() + 1).unwrap_or(0)
+    s.with_collector(|(id, d)| match d.downcast_ref::<Rec>() {
+        Some(r) => r.g(id.into_u64()) + 1,
+        None => id.into_u64() + 1,
+    })
+    .unwrap_or(0)
 }
 
 /// Executes controller commands until the frame this loop runs in is told to end.
@@ -593,7 +634,7 @@ fn run_loop(ctx: &std::rc::Rc<WorkerCtx>) -> Exit {
                         drop(bx);
                         dr
                     }
-                    Holder::Owned(_) => {
+                    Holder::Owned(..) => {
                         let es = ctx.owned.borrow_mut().remove(&a).expect("validated: owned by this thread");
                         let dr = idp(&es);
                         drop(es);
@@ -625,8 +666,9 @@ fn run_loop(ctx: &std::rc::Rc<WorkerCtx>) -> Exit {
                 let s = case.take_span(a);
                 let es = Box::new(s.entered());
                 let p: *const Span = &**es;
+                let pe: *const EnteredSpan = &*es;
                 ctx.owned.borrow_mut().insert(a, es);
-                case.tables.lock().unwrap().holders.insert(a, Holder::Owned(p));
+                case.tables.lock().unwrap().holders.insert(a, Holder::Owned(p, pe));
                 ctx.ack(Ack::Done(0, 0, 0));
             }
             8 => {
@@ -825,6 +867,70 @@ fn run_loop(ctx: &std::rc::Rc<WorkerCtx>) -> Exit {
                 let g = f.wrap(d);
                 case.tables.lock().unwrap().holders.insert(a, Holder::Fut(g));
                 ctx.ack(Ack::Done(0, 0, 0));
+            }
+            24 => {
+                // drop(r.clone()) with `.clone()` written on the holder itself: on an EnteredSpan guard method resolution
+                // finds no Clone for the guard and auto-derefs to Span::clone (a plain, un-entered Span)
+                enum Src {
+                    Span(*const Span),
+                    Guard(*const EnteredSpan),
+                }
+                let src = {
+                    let t = case.tables.lock().unwrap();
+                    match t.holders.get(&a).expect("validated: live") {
+                        Holder::Handle(bx) => Src::Span(&**bx as *const Span),
+                        Holder::Owned(_, pe) => Src::Guard(*pe),
+                        Holder::Fut(f) => Src::Span(f.span() as *const Span),
+                        Holder::Polling => panic!("validated: not polling"),
+                    }
+                };
+                match src {
+                    Src::Span(p) => {
+                        let sp: &Span = unsafe { &*p };
+                        drop(sp.clone());
+                    }
+                    Src::Guard(p) => {
+                        let g: &EnteredSpan = unsafe { &*p };
+                        #[allow(clippy::explicit_auto_deref)]
+                        drop((*g).clone());
+                    }
+                }
+                ctx.ack(Ack::Done(0, 0, 0));
+            }
+            25 => {
+                // a.clone_from(&b), directly (e = 0) or through Box / Option / Vec ::clone_from (e = 1, 2, 3); the source
+                // containers hold a bitwise copy of b that is forgotten afterwards
+                let mut bx = match case.take(a) {
+                    Holder::Handle(bx) => bx,
+                    _ => panic!("validated: plain handle"),
+                };
+                let pre = idp(&bx);
+                let bp = case.span_ptr(b);
+                match d % 4 {
+                    0 => (*bx).clone_from(unsafe { &*bp }),
+                    1 => {
+                        let tmp: Box<Span> = Box::new(unsafe { std::ptr::read(bp) });
+                        bx.clone_from(&tmp);
+                        std::mem::forget(*tmp);
+                    }
+                    2 => {
+                        let mut oa: Option<Span> = Some(*bx);
+                        let ob: Option<Span> = Some(unsafe { std::ptr::read(bp) });
+                        oa.clone_from(&ob);
+                        std::mem::forget(ob);
+                        bx = Box::new(oa.unwrap());
+                    }
+                    _ => {
+                        let mut va: Vec<Span> = vec![*bx];
+                        let mut vb: Vec<Span> = vec![unsafe { std::ptr::read(bp) }];
+                        va.clone_from(&vb);
+                        std::mem::forget(vb.pop());
+                        bx = Box::new(va.pop().unwrap());
+                    }
+                }
+                let r = idp(&bx);
+                case.tables.lock().unwrap().holders.insert(a, Holder::Handle(bx));
+                ctx.ack(Ack::Done(r, 0, pre));
             }
             _ => ctx.ack(Ack::Fatal(format!("unknown op code {}", code))),
         }
@@ -1076,6 +1182,16 @@ impl OwnSt {
                 }
                 self.kinds.insert(a, 2);
             }
+            24 => {
+                if !(self.readable(a) && !self.live(b)) {
+                    return false;
+                }
+            }
+            25 => {
+                if !(self.is_handle(a) && self.free(a) && self.readable(b) && a != b && !self.live(c)) {
+                    return false;
+                }
+            }
             _ => return false,
         }
         true
@@ -1096,17 +1212,16 @@ fn run_case(v: &serde_json::Value) -> serde_json::Value {
             x
         })
         .collect();
-    let shared = Arc::new(Shared { log: Mutex::new(Vec::new()), next_id: AtomicU64::new(1), recording: AtomicBool::new(true) });
+    let shared = Arc::new(Shared {
+        log: Mutex::new(Vec::new()),
+        next_id: AtomicU64::new(1),
+        recording: AtomicBool::new(true),
+        own_ids: v["own_ids"].as_bool().unwrap_or(false),
+    });
     let wraps: Vec<u64> = v["wraps"].as_array().map(|a| a.iter().map(|x| x.as_u64().unwrap_or(0)).collect()).unwrap_or_default();
     let dispatches: Vec<Dispatch> = (1..=ncoll)
         .map(|k| {
-            let rec = Rec {
-                name: k,
-                per_handle: k >= 3,
-                shared: shared.clone(),
-                stacks: Mutex::new(HashMap::new()),
-                metas: Mutex::new(HashMap::new()),
-            };
+            let rec = Rec::new(k, k >= 3, shared.clone());
             match wraps.get((k - 1) as usize).copied().unwrap_or(0) {
                 0 => Dispatch::new(rec),
                 1 => Dispatch::new(Box::new(rec)),
@@ -1204,8 +1319,8 @@ fn main() {
     panic::set_hook(Box::new(|_| {}));
     // Capture the three callsites' metadata once (for the direct Span::new* calls) under a throw-away collector.
     {
-        let sh = Arc::new(Shared { log: Mutex::new(Vec::new()), next_id: AtomicU64::new(1), recording: AtomicBool::new(false) });
-        let d = Dispatch::new(Rec { name: 9, per_handle: false, shared: sh, stacks: Mutex::new(HashMap::new()), metas: Mutex::new(HashMap::new()) });
+        let sh = Arc::new(Shared { log: Mutex::new(Vec::new()), next_id: AtomicU64::new(1), recording: AtomicBool::new(false), own_ids: false });
+        let d = Dispatch::new(Rec::new(9, false, sh));
         dispatch::with_default(&d, || {
             let a = mk_ctx();
             let b = mk_root();
